@@ -129,7 +129,7 @@ def success(p):
 def run(chk, tier):
     P = Prog("default")
     chk.configs.add("default")
-    for r in (r_mustread, r_verify_sets, r_ambiguous_pick, r_offset_used, r_who_writes, r_setter_boxes, r_setter_fields, r_resolve_year, r_resolve_year_map, r_offset_optional, r_verify_halves, r_resolution_map, r_absint):
+    for r in (r_mustread, r_verify_sets, r_ambiguous_pick, r_offset_used, r_who_writes, r_setter_boxes, r_setter_fields, r_resolve_year, r_resolve_year_map, r_offset_optional, r_verify_halves, r_resolution_map, r_timestamp_fields, r_absint):
         chk.guarded(r, P, tier)
     chk.assume("that resolution succeeds exactly on the documented sufficient combinations, and the error classification (not enough / impossible / out of range), are not decided")
     return {
@@ -711,3 +711,28 @@ def r_resolution_map(chk, P, tier):
     for cls, (a, got) in sorted(bad.items()):
         fnn = "to_naive_time" if cls.startswith("to_naive_time") else ("to_naive_datetime_with_offset" if cls.startswith("date-time") else "to_naive_date")
         chk.bad(cls, "%s: fields derived from %s resolve to %s" % (cls, a, got), loc=P.loc(F + fnn))
+
+
+def r_timestamp_fields(chk, P, tier):
+    """when a timestamp is supplied, to_naive_datetime_with_offset fills year, ordinal, hour and minute from the date-time the timestamp denotes; on every
+    path these setters read ONE date-time value (after the leap-second step-back, if any): a field read before the adjustment and the others after it
+    describe two different seconds"""
+    chk.rule("SIB.timestamp_fields", "in the timestamp branch of to_naive_datetime_with_offset set_year / set_ordinal / set_hour / set_minute read the same date-time term on every path", floor=100)
+    fn = "format::parsed::Parsed::to_naive_datetime_with_offset"
+    n, bad = 0, None
+    for p in Sym(P, fn).paths():
+        src = {}
+        for c in p.calls:
+            if isinstance(c[1], str) and c[1].split("::")[-1] in ("set_year", "set_ordinal", "set_hour", "set_minute") and len(c[2]) > 1:
+                acc = [x for x in walk_terms(c[2][1]) if x[0] == "call" and isinstance(x[1], str) and x[1].split("::")[-1] in ("year", "ordinal", "hour", "minute") and x[2]]
+                if acc:
+                    src[c[1].split("::")[-1]] = acc[0][2][0]
+        if not src:
+            continue
+        n += 1
+        chk.ok("path")
+        if len(set(src.values())) > 1 and bad is None:
+            bad = sorted((k, pp(v)[:50]) for k, v in src.items())
+    if not n:
+        raise AnchorLost(fn + ": timestamp branch setters")
+    chk.expect(bad is None, "one source", "the timestamp-derived fields are read from different date-time values on one path: %s" % (bad,), loc=P.loc(fn))
